@@ -246,12 +246,34 @@ def secondLeaveDir (cfg : Cfg) (st : St) (n : Option Node) (rel : Path) (expecte
     let (fs2, ok2) := restoreMetadata cfg st.fs nd rel
     ({ st with fs := fs2 }, ok2)
 
+/-- `isDirBelow` for the components below `base`: `Lstat` says directory for each of them -/
+def isDirBelowFrom (fs : FS) (base : Path) : List Name → Bool
+  | [] => true
+  | c :: rest =>
+    (match lstat fs (base ++ [c]) with | some e => e.isDir | none => false) &&
+    isDirBelowFrom fs (base ++ [c]) rest
+
+/-- `isDirBelow(dst, dst ++ rel)`: dst and every component below it is an existing real
+    directory (checked with `Lstat`; nothing is created or replaced) -/
+def isDirBelow (cfg : Cfg) (fs : FS) (rel : Path) : Bool :=
+  (match lstat fs cfg.dst with | some e => e.isDir | none => false) && isDirBelowFrom fs cfg.dst rel
+
+/-- second pass `skippedDir`: a traversed directory in which nothing was restored is cleaned up
+    (with --delete) only if it and all its parents below dst are real directories -/
+def secondSkippedDir (cfg : Cfg) (st : St) (rel : Path) (expected : List Name) : St × Bool :=
+  if !st.delete then (st, true) else
+  if !isDirBelow cfg st.fs rel then (st, true) else
+  let (fs1, ok1) := removeUnexpectedFiles cfg st.fs rel expected
+  ({ st with fs := fs1 }, ok1)
+
 /-! ## traversal -/
 
 structure Visitor where
   enterDir : Option (St → Path → St × Bool)
   visitNode : St → Node → Path → St × Bool
   leaveDir : Option (St → Option Node → Path → List Name → St × Bool)
+  /-- called instead of `leaveDir` for a traversed directory in which nothing was restored -/
+  skippedDir : Option (St → Path → List Name → St × Bool)
 
 /-- `sanitizeError`: the command line counts the error and goes on -/
 def sanitize (r : St × Bool) : St := if r.2 then r.1 else r.1.err
@@ -286,7 +308,13 @@ def traverseNodes (cfg : Cfg) (v : Visitor) (rel : Path) :
         let hr := hr || childHr
         let st := match (selected || childHr), v.leaveDir with
           | true, some f => sanitize (f st (some n) nodeRel childFn)
-          | _, _ => st
+          | _, _ =>
+            -- `else if !selectedForRestore && !childHasRestored && childMayBeSelected && skippedDir != nil`
+            if !selected && !childHr && childMay then
+              (match v.skippedDir with
+               | some g => sanitize (g st nodeRel childFn)
+               | none => st)
+            else st
         traverseNodes cfg v rel rest st fn hr
     else
       let st := if selected then sanitize (v.visitNode st n nodeRel) else st
@@ -315,7 +343,13 @@ def rootLeave (v : Visitor) (r : St × List Name × Bool × Bool) : St × Bool :
     if fatal then (st, true) else
     match hr, v.leaveDir with
     | true, some f => (sanitize (f st none [] fn), false)
-    | _, _ => (st, false)
+    | _, _ =>
+      -- `else if !hasRestored && visitor.skippedDir != nil`
+      if !hr then
+        (match v.skippedDir with
+         | some g => (sanitize (g st [] fn), false)
+         | none => (st, false))
+      else (st, false)
 
 /-- `traverseTree` -/
 def traverseTree (cfg : Cfg) (v : Visitor) (tree : List Node) (st : St) : St × Bool :=
@@ -324,12 +358,14 @@ def traverseTree (cfg : Cfg) (v : Visitor) (tree : List Node) (st : St) : St × 
 def firstPass (cfg : Cfg) : Visitor :=
   { enterDir := some (fun st rel => firstEnterDir cfg st rel),
     visitNode := fun st n rel => firstVisitNode cfg st n rel,
-    leaveDir := none }
+    leaveDir := none,
+    skippedDir := none }
 
 def secondPass (cfg : Cfg) : Visitor :=
   { enterDir := none,
     visitNode := fun st n rel => secondVisitNode cfg st n rel,
-    leaveDir := some (fun st n rel exp => secondLeaveDir cfg st n rel exp) }
+    leaveDir := some (fun st n rel exp => secondLeaveDir cfg st n rel exp),
+    skippedDir := some (fun st rel exp => secondSkippedDir cfg st rel exp) }
 
 /-- `RestoreTo` -/
 def restore (cfg : Cfg) (tree : List Node) (fs : FS) (delete : Bool) : St :=
